@@ -252,6 +252,82 @@ def handle : Handler := fun op inp impl =>
     { agree := holds && hdrOk, holds := holds, nontrivial := bool (field inp "headers"),
       cls := "e2e:" ++ str (field inp "proto") ++ (if bool (field inp "headers") then "+headers" else ""),
       why := if holds then "" else "the error a connect-go client receives from the reference server is not the error of the response definition (code, message, details)" }
+  | "statusrt" =>
+    let code := int (field inp "code")
+    let msg := unhex (str (field inp "msg"))
+    let style := str (field inp "style")
+    let nDetails := (arr (field inp "details")).length
+    let esc := boolList (field inp "esc")
+    let low := boolList (field inp "low")
+    -- the way every byte is written, by style
+    let cs : List (UInt8 × Esc) := match style with
+      | "own" => ownChoice msg
+      | "upper" => msg.map (·, Esc.upper)
+      | "lower" => msg.map (·, Esc.lower)
+      | _ => msg.zipIdx.map fun (b, i) =>
+          if shouldEscape b || esc.getD i false then (b, if low.getD i false then Esc.lower else Esc.upper) else (b, Esc.plain)
+    let wire := unhex (str (field impl "wire"))
+    let hasBin := bool (field impl "bin")
+    let fb := strList (field impl "fb")
+    let optHex (k : String) : Option Bytes := if isNull (field impl k) then none else some (unhex (str (field impl k)))
+    -- the model: the trailers as the encoder model writes them, read by the client model
+    let mWire := encodeWith cs
+    let mBin := if style == "own" then nDetails > 0 else true
+    let t : StatusTrailers :=
+      { status := code, message := mWire, bin := if mBin then some { code := code, message := msg, details := [] } else none }
+    let d := clientCheckStatus t
+    let mFb := (if d.code then ["st:details-code"] else []) ++ (if d.message then ["st:details-msg"] else [])
+    -- the property, on the implementation's output: the trailers are an encoding of the error
+    -- (grpc-message percent-decodes to the message by the specification's decoder) and the
+    -- repository's own reader finds code and message in agreement - and nothing else to report
+    let claimed := percentDecode wire == some msg && conformant cs && 1 ≤ code && code ≤ 16
+    let implD : StatusDisagreement := { code := fb.contains "st:details-code", message := fb.contains "st:details-msg" }
+    let holds := !claimed || (readBackAgrees implD && fb.isEmpty)
+    let decodedOk := match optHex "decoded" with
+      | some dec => some dec == pathUnescape wire && optHex "binMsg" == some msg
+      | none => true
+    { agree := wire == mWire && hasBin == mBin && fb == mFb && decodedOk, holds := holds,
+      nontrivial := claimed && hasBin && (msg.any shouldEscape || cs.any (fun be => be.2 != Esc.plain) || msg.contains 0x2B),
+      model := Json.mkObj [("wire", hex mWire), ("fb", toJson mFb)], cls := style,
+      why := if holds then "" else
+        s!"status trailers of code {code}, message {hex msg} (grpc-message {hex wire}, style {style}) read back by the reference client: feedback {fb}" ++
+          (match optHex "decoded" with
+           | some dec => s!"; its decoder of grpc-message returned {hex dec}, which is not the message that was encoded (decoder is not the inverse of the encoder)"
+           | none => "") }
+  | "mdrt" =>
+    let md := parseMD (field inp "md")
+    let implHs := parseHs (field impl "hs")
+    let back := parseMD (field impl "back")
+    let out := parseMD (field impl "out")
+    let binFb := nat (field impl "binFb")
+    let mHs := mdToHeaders b64 md
+    let mBack := headersToMD b64 mHs
+    let mOut := fromOutgoing (appendOutgoing b64 mHs)
+    let nonEmpty (m : MD) : MD := m.filter (fun kv => !kv.2.isEmpty)
+    let claimed := lowerDistinct md
+    -- every key and every value (bytes) of the metadata is back after the header form, for
+    -- both decoders, and the validator of binary metadata accepts what the encoder wrote
+    let holds := !claimed || (canonMD back == canonMD md && sameValues out md && binFb == 0)
+    { agree := canonMD (hsAsMD implHs) == canonMD (hsAsMD mHs) && canonMD back == canonMD mBack
+        && canonMD (nonEmpty out) == canonMD (nonEmpty mOut) && binFb == 0,
+      holds := holds, nontrivial := md.any (fun kv => isBin kv.1 && !kv.2.isEmpty),
+      model := canonJson "k" (canonMD mBack),
+      why := if holds then "" else
+        if binFb != 0 then "checkBinaryMetadata rejects a -bin value written by ConvertMetadataToProtoHeader"
+        else if canonMD back != canonMD md then "metadata -> headers -> metadata (ConvertProtoHeaderToMetadata) is not the metadata"
+        else "metadata -> headers -> outgoing context (AppendToOutgoingContext) does not carry the metadata's values" }
+  | "hdrrt" =>
+    let h := parseMD (field inp "h")
+    let back := parseMD (field impl "back")
+    let implHs := parseHs (field impl "hs")
+    let mHs := convertToProtoHeader h
+    let m := addHeaders mHs
+    let claimed := canonDistinct h
+    let holds := !claimed || sameValues back h
+    let nonEmpty (m : MD) : MD := m.filter (fun kv => !kv.2.isEmpty)
+    { agree := canonMD (hsAsMD implHs) == canonMD (hsAsMD mHs) && canonMD (nonEmpty back) == canonMD (nonEmpty m),
+      holds := holds, nontrivial := claimed && h.length > 1, model := canonJson "k" (canonMD m),
+      why := if holds then "" else "http.Header -> ConvertToProtoHeader -> AddHeaders does not hold every value of every key" }
   | _ => bad ("C18: unknown op " ++ op)
 
 end ConfModel.Driver.C18
